@@ -475,12 +475,11 @@ the evaluated condition and discharges calls with the given lemmas; leaves the l
 syntax "awp_auto" "[" term,* "]" : tactic
 macro_rules
   | `(tactic| awp_auto [$ls,*]) => `(tactic| repeat' (first
-      | (intro h; exact absurd h (by decide))
-      | intro _
+      | (intro h; first | (simp at h; done) | skip)
+      | (simp only [awp_simp, List.head?_cons, List.head?_nil, List.drop_succ_cons, List.drop_zero, List.drop_nil,
+          Option.getD_some, Option.getD_none])
       | (first $[| apply $ls]*)
       | refine ⟨?_, ?_⟩
-      | split
-      | (simp only [awp_simp, List.head?_cons, List.head?_nil, List.drop_succ_cons, List.drop_zero, List.drop_nil,
-          Option.getD_some, Option.getD_none])))
+      | split))
 
 end SasLexer
